@@ -78,6 +78,9 @@ def pres_units():
             ("variant payload", 'pub enum @ { A(#[ts(as = "%s")] Opaque), B }' % t, "pub enum @ { A(%s), B }" % t),
             ("variant", 'pub enum @ { #[ts(as = "%s")] A(Opaque, Opaque), B }' % t, "pub enum @ { A(%s), B }" % t),
             ("underscore", 'pub struct @ { #[ts(as = "Option<_>")] pub f: %s }' % t, "pub struct @ { pub f: Option<%s> }" % t),
+            # inline against by name, for every type constructor of the list
+            ("inline vs name, named field", "pub struct @ { #[ts(inline)] pub f: %s, pub g: String }" % t, "pub struct @ { pub f: %s, pub g: String }" % t),
+            ("inline vs name, variant payload", "pub enum @ { A(#[ts(inline)] %s), B }" % t, "pub enum @ { A(%s), B }" % t),
             # `as` together with `inline`: the inline form of the `as` type
             ("named field, inlined", 'pub struct @ { #[ts(as = "%s", inline)] pub f: Opaque, pub g: String }' % t, "pub struct @ { #[ts(inline)] pub f: %s, pub g: String }" % t),
             ("newtype, inlined", 'pub struct @(#[ts(as = "%s", inline)] pub Inner);' % t, "pub struct @(#[ts(inline)] pub %s);" % t),
